@@ -80,12 +80,12 @@ def new_stats():
     return {'paths': 0, 'nontrivial': 0, 'aborted': 0, 'kinds': collections.Counter(), 'checks': 0, 'discharged': 0,
             'unknown': 0, 'labels': collections.Counter(), 'queries': 0, 'solver_s': 0.0, 'cex': [], 'unconfirmed': [],
             'errors': [], 'inconclusive': [], 'validated': 0, 'val_mismatch': [], 'val_skipped': 0, 'samples': [],
-            'maybe_infeasible': 0, 'axioms': set(), 'sigs': collections.Counter()}
+            'maybe_infeasible': 0, 'axioms': set(), 'sigs': collections.Counter(), 'bad_models': 0, 'fallback_decided': 0}
 
 
 def merge_stats(a, b):
     for k in ('paths', 'nontrivial', 'aborted', 'checks', 'discharged', 'unknown', 'queries', 'validated', 'val_skipped',
-              'maybe_infeasible'):
+              'maybe_infeasible', 'bad_models', 'fallback_decided'):
         a[k] += b[k]
     a['solver_s'] += b['solver_s']
     for k in ('kinds', 'labels', 'sigs'):
@@ -164,6 +164,8 @@ def _explore(h, roots, max_paths, max_s, seed, validate_every):
             set_engine(None)
             E.solver.pop()
     st['queries'] = E.queries
+    st['bad_models'] = E.bad_models
+    st['fallback_decided'] = E.fallback_decided
     st['solver_s'] = E.solver_s
     return h.name, st, work
 
@@ -381,6 +383,7 @@ def run_check(modname, tier, seed=0):
             'obligations': tot['checks'], 'discharged': tot['discharged'], 'solver_unknown': tot['unknown'],
             'inconclusive_items': tot['inconclusive'][:20], 'queries': tot['queries'], 'solver_s': round(tot['solver_s'], 2),
             'infeasible_pruned': tot['aborted'], 'paths_with_unestablished_feasibility': tot['maybe_infeasible'],
+            'solver_models_rejected_as_invalid': tot['bad_models'], 'obligations_decided_by_fallback_solver': tot['fallback_decided'],
             'traces_validated_against_impl': tot['validated'], 'witness_mismatches': tot['val_mismatch'][:5],
             'obligation_labels_reached': dict(tot['labels']),
             'functions_encoded': functions, 'stubs': stubs, 'axioms': sorted(tot['axioms']),
